@@ -121,6 +121,14 @@ def mon_monotone(out, P, tr, tags, scale=1.0):
             out.violate("objective_increased", f"f({seq[k][0]})={vals[k]!r} > f({seq[k - 1][0]})={vals[k - 1]!r} (increase {inc:.3e}); "
                         f"final message {msg!r}", converged=bool(msg and msg.startswith("CONVERGENCE")), **tags)
             return vals
+    # "a line search that finds no point better than its start leaves the iterate where it was": an iterate that
+    # moved must have a strictly lower value
+    for k in range(1, len(vals)):
+        if vals[k] == vals[k - 1] and not np.array_equal(seq[k][1], seq[k - 1][1]):
+            out.violate("iterate_moved_without_decrease", f"f({seq[k][0]}) == f({seq[k - 1][0]}) = {vals[k]!r} but the iterate moved "
+                        f"(max |dx| = {float(np.max(np.abs(seq[k][1] - seq[k - 1][1]))):.3e}): the line search found no better point yet the iterate was not left where it was",
+                        **tags)
+            return vals
     if tr.result is not None and not (vals[-1] <= vals[0]):
         out.violate("result_worse_than_start", f"f(result.x)={vals[-1]!r} > f(x0)={vals[0]!r}", **tags)
     return vals
